@@ -129,17 +129,41 @@ pub fn replay_with(args: &[String], roundtrip: &dyn Fn(&dyn Obj) -> Option<Resul
     let mut passf = arg_val(args, "--passthrough").map(|p| std::fs::File::create(p).unwrap());
     let reg = registry();
     let mut scheds: Vec<Value> = vec![];
+    let mut special: Vec<Value> = vec![];      // schedules in which an object is sampled, mutated and sampled again
     let mut total = 0u64;
+    fn sample_mutate_sample(sc: &Value) -> bool {
+        for o in 1..=3i64 {
+            let mut st = 0;
+            for e in sc.as_array().unwrap() {
+                if e["o"].as_i64() != Some(o) { continue; }
+                match (e["op"].as_str().unwrap_or(""), st) {
+                    ("sample", 0) | ("iter", 0) => st = 1,
+                    ("mutate", 1) => st = 2,
+                    ("sample", 2) | ("iter", 2) => return true,
+                    ("clone", _) | ("rebuild", _) | ("roundtrip", _) => st = 0,
+                    _ => {}
+                }
+            }
+        }
+        false
+    }
     for line in std::io::stdin().lock().lines() {
         let Ok(line) = line else { break };
         let Some(p) = tlc_payload(&line, "SCHED") else { if let Some(f) = passf.as_mut() { let _ = writeln!(f, "{}", line); } continue; };
         total += 1;
         // reservoir-free thinning: keep the first max_sched distinct schedules seen at a stride
+        if serde_only && !p.contains("roundtrip") { continue; }
+        if p.contains("mutate") && special.len() < max_sched / 3 + 1 {
+            let v: Value = serde_json::from_str(&p).unwrap();
+            if sample_mutate_sample(&v) { special.push(v); continue; }
+        }
         if scheds.len() < max_sched && (total % 7 == 1 || total < 4) {
-            if serde_only && !p.contains("roundtrip") { continue; }
             scheds.push(serde_json::from_str(&p).unwrap());
         }
     }
+    let keep = max_sched.saturating_sub(special.len());
+    scheds.truncate(keep.max(1));
+    scheds.extend(special);
     let mut f = std::io::BufWriter::new(std::fs::File::create(&outp).unwrap());
     let mut events = 0u64; let mut instances = 0u64; let mut skipped = 0u64;
     let mut buf: Vec<String> = vec![];
